@@ -373,6 +373,15 @@ func c20DoCall(tx types.Transaction, c c20Call, d c20Dirs) c20CallRes {
 				}
 			}
 		}
+	case "rmupload1":
+		// real fault on one file only: Close must report it and still remove the other upload temp files
+		if st := verifapi.TxState(tx); st != nil {
+			if fs := st.Variables().FilesTmpNames().Get(""); len(fs) > 1 {
+				if os.Remove(fs[0]) == nil {
+					cr.N++
+				}
+			}
+		}
 	case "rmspill":
 		for _, f := range c20List(d.Tmp) {
 			if strings.HasPrefix(filepath.Base(f), "body") && os.Remove(f) == nil {
